@@ -42,3 +42,9 @@ Lemma tie_safe_fmt_ulong : forall (u : N) (buf : list Z), (u < 18446744073709551
 Proof. exact Gen_safety.safe_fmt_ulong. Qed.
 Definition generated_safety_theorems := (Gen_safety.safe_byte_chr, Gen_safety.safe_str_chr, Gen_safety.safe_case_diffb, Gen_safety.safe_cm_hash,
   Gen_safety.safe_cdb_unpack, Gen_safety.safe_fmt_str, Gen_safety.safe_byte_copy).
+From NQ Require Tie.Gen_quote.
+Lemma tie_safe_quote_need : forall (s : Bytes.bytes) (tbl : list Z), bytes_ok s -> length tbl = 128%nat -> Z.of_nat (length s) < 2 ^ 31 ->
+  exists v st, K_quote_need.run (S (S (length s))) (zs s) 0 (Z.of_nat (length s)) tbl = Some (v, st) /\ K_quote_need.v__oob st = 0.
+Proof. exact Gen_quote.safe_quote_need. Qed.
+Definition generated_safety_theorems_2 := (Gen_quote.safe_hmatch, Gen_quote.safe_atomcheck, Gen_quote.safe_striptrailingwhitespace,
+  Gen_quote.safe_case_lowerb, Gen_quote.safe_byte_rchr, Gen_quote.safe_str_rchr).
